@@ -3,7 +3,7 @@
 paths) and a seeded random driver.  Scripts carry operations only - never an
 expected result; the oracle is World_L0 evaluated by TLC on the recorded trace.
 """
-import random
+import random, zlib
 
 PATHS = {
     "read": ["get", "wget", "gget", "gwget", "contains", "lend_get", "lend2_get", "r_get_other", "rl_get_other", "rm_get_other", "entry_get"],
@@ -313,11 +313,85 @@ class Gen:
 def random_scripts(seed, n, n_ops, S_choices, tid0, profile="mixed", sweep="full", kinds=None, max_live=14, far=0):
     res = []
     for i in range(n):
-        rng = random.Random((seed * 1000003 + i * 7919 + hash(profile) % 1000) & 0xFFFFFFFF)
+        rng = random.Random((seed * 1000003 + i * 7919 + zlib.crc32(profile.encode()) % 1000) & 0xFFFFFFFF)
         S = S_choices[i % len(S_choices)]
         g = Gen(rng, S, max_live=max_live, profile=profile)
         ops = g.script(n_ops, far=(far if i % 3 == 0 else 0))
         res.append({"tid": tid0 + i, "cfg": cfg_for(rng.randrange(1000), S, kinds or KINDS), "ops": ops, "sweep": sweep})
+    return res
+
+
+def gen_churn_scripts(seed, n, tid0, kinds=None):
+    """few entities, but some indices recycled hundreds of times (generations far
+    beyond anything short histories reach) and large batches (hundreds of entities
+    created / deleted at once), followed by ordinary random operations that prefer
+    the stale handles of the recycled indices"""
+    res = []
+    kinds = kinds or KINDS
+    for i in range(n):
+        rng = random.Random((seed * 15485863 + i * 32452843) & 0xFFFFFFFF)
+        S = rng.choice([1, 1, 2])
+        g = Gen(rng, S, max_live=10, profile="mixed")
+        ops = []
+
+        def emit(op, eff):
+            ops.append(op)
+            if eff and eff[0] == "newn":
+                for _ in range(op["n"]):
+                    g._new(False)
+            elif eff and eff[0] == "maintain":
+                for k in list(g.doomed):
+                    g._kill(k)
+            else:
+                g.apply(eff)
+
+        for _ in range(rng.randint(1, 3)):
+            emit({"o": "create", "with": g.withs()}, ("new", False))
+        mode = i % 3
+        if mode in (0, 1):
+            rounds = rng.choice([70, 140, 270] if mode == 0 else [40, 520])
+            for r in range(rounds):
+                c = rng.random()
+                if c < 0.5:
+                    emit({"o": "create", "with": g.withs()}, ("new", False))
+                elif c < 0.8:
+                    emit({"o": "ecreate"}, ("new", False))
+                else:
+                    emit({"o": "ebuild", "with": g.withs()}, ("new", False))
+                k = g.nh - 1
+                d = rng.random()
+                if d < 0.6:
+                    emit({"o": "delete", "h": k}, ("kill", [k]))
+                elif d < 0.8:
+                    emit({"o": "delete_batch", "hs": [k]}, ("batch", [k]))
+                else:
+                    emit({"o": "edelete", "h": k}, ("doom", k))
+                    emit({"o": "maintain"}, ("maintain", None))
+                if r % 37 == 5:
+                    # look at an early generation of the recycled index
+                    old = rng.choice(g.dead[: max(1, len(g.dead) // 3)])
+                    emit({"o": "sop", "path": rng.choice(ALL_PATHS), "s": rng.randrange(S), "h": old, "w": True}, None)
+        else:
+            nb = rng.choice([70, 130, 300])
+            emit({"o": rng.choice(["create_iter", "ecreate_iter"]), "n": nb}, ("newn", None))
+            first = g.nh - nb
+            hs = list(range(first, first + nb))
+            rng.shuffle(hs)
+            cut = rng.randint(nb // 2, nb - 3)
+            for h in hs[cut:cut + 6]:
+                emit({"o": "sop", "path": rng.choice(PATHS["insert"]), "s": rng.randrange(S), "h": h}, None)
+            emit({"o": "delete_batch", "hs": hs[:cut]}, ("batch", hs[:cut]))
+            emit({"o": "maintain"}, ("maintain", None))
+            emit({"o": "create_iter", "n": rng.randint(2, 5)}, ("newn", None))
+        for _ in range(40):
+            op, eff = g.simple_op()
+            if op is None or ("h" in op and op["h"] is None) or ("hs" in op and any(v is None for v in op["hs"])):
+                continue
+            if op["o"] in ("lexec", "lexec_mut"):
+                continue
+            emit(op, eff)
+        ops.append({"o": "maintain"})
+        res.append({"tid": tid0 + i, "cfg": cfg_for(rng.randrange(1000), S, kinds), "ops": ops, "sweep": "full"})
     return res
 
 
